@@ -55,6 +55,11 @@
      AlignedTargetMassConserved  the target's mass is conserved iff its bottom sits on the block bottom
      UniformAssemblyMassConserved  if EVERY block's solids share one fraction, every solid's mass is conserved
      NonNegativeHeights          heights >= 0 (the guard is `< 0.0`)
+   WHAT-IF CONSTANTS (both FALSE = the code as it is; see AxialExpansion_whatif_*.cfg): ZeroHeightRefused models the
+   one-character fix `<= 0.0` of _checkBlockHeight (PositiveHeights then holds); AlignTarget models placing the target
+   component on the block bottom: TargetMassConserved and UniformBlockMassConserved then hold, but LinkedStayStacked
+   fails for targets linked to a non-target below -- with densities divided by the growth fraction the statement's
+   conservation and stacking clauses cannot all hold when the solids of a block grow by different fractions.
    Refusals: RefusalsChangeNothing (RuntimeError refusals leave elevations, densities, temperatures and bounds as
    they were; the persisted target names may be filled in).
 *)
@@ -68,6 +73,8 @@ CONSTANTS Designs,        \* set of [types |-> <<block type names, bottom-up, wi
           FromInput,      \* values of expandFromTinputToThot explored (subset of BOOLEAN)
           ExplicitTargets,\* TRUE: every choice of an explicit (blueprint) target component per block is explored too
           Refusals,       \* TRUE: also explore the calls refused with RuntimeError
+          ZeroHeightRefused, \* FALSE = the code as it is (_checkBlockHeight raises for height < 0.0); TRUE = with the guard `<= 0.0`
+          AlignTarget,    \* FALSE = the code as it is; TRUE = what-if: the target component's bottom is put on the block bottom
           MaxLevel
 
 VARIABLES A,              \* the design (static)
@@ -219,6 +226,7 @@ ExpandFrom(b, acc, c0, g, tn) ==
                         ELSE LET chh == RMul(g[b][i], h[b])        \* c.height = growFrac * blockHeight
                                  lo  == Lower(b, i)
                                  czb == IF b = 1 THEN RZero
+                                        ELSE IF AlignTarget /\ i = tn[b] THEN acc.zt[b - 1]     \* (what-if variant only)
                                         ELSE IF lo # 0 THEN acc.comp[b - 1][lo].zt
                                         ELSE acc.zt[b - 1]
                              IN [c0[b][i] EXCEPT !.h = chh, !.zb = czb, !.zt = RAdd(czb, chh),
@@ -232,7 +240,7 @@ ExpandFrom(b, acc, c0, g, tn) ==
                                zt   |-> [acc.zt EXCEPT ![b] = ztN],
                                h    |-> [acc.h EXCEPT ![b] = hN],
                                comp |-> [acc.comp EXCEPT ![b] = cN],
-                               fail |-> IF RLt(hN, RZero) THEN b ELSE 0])     \* _checkBlockHeight: `< 0.0`
+                               fail |-> IF RLt(hN, RZero) \/ (ZeroHeightRefused /\ hN = RZero) THEN b ELSE 0])     \* _checkBlockHeight: `< 0.0`
          IN ExpandFrom(b + 1, nxt, c0, g, tn)
 ExpandCore(c0, g, tn) == ExpandFrom(1, [zb |-> zb, zt |-> zt, h |-> h, comp |-> c0, fail |-> 0], c0, g, tn)
 
@@ -407,6 +415,7 @@ NameOf(b, i) == IF i = 0 THEN "" ELSE CNames(b)[i]
 ObsMass(b, i) == IF broken THEN RZero ELSE RDiv(MassOf(b, i), RInt(A.hs[b]))
 Sq(x) == RMul(x, x)
 Obs == [zb |-> zb, zt |-> zt, h |-> h, mesh |-> mesh, placed |-> placed, broken |-> broken, err |-> err,
+        loc |-> [b \in 1..NBk |-> b - 1],                      \* b.spatialLocator = a.spatialGrid[0, 0, ib]
         total |-> zt[NBk], hsum |-> RSumSeq(h), fluid |-> ROne,
         zmid |-> [b \in 1..NBk |-> RAdd(zb[b], RDiv(h[b], RInt(2)))],
         tname |-> [b \in 1..NBk |-> NameOf(b, tname[b])],
